@@ -1,0 +1,11 @@
+//go:build verif
+
+package sanitize
+
+// VerifSanitizeStyle exposes sanitizeStyle (the CSS declaration filter) to the
+// verification harness.
+func VerifSanitizeStyle(input string) string { return sanitizeStyle(input) }
+
+// VerifStyleTags exposes sanitizeStyleTags (the start-tag rewriter that runs before the
+// bluemonday policy) to the verification harness.
+func VerifStyleTags(input string) (string, error) { return sanitizeStyleTags(input) }
